@@ -91,13 +91,15 @@ Record uri_obs := mkUriObs {
   uo_ok2 : bool; uo_scheme2 : bytes; uo_hostport2 : bytes; uo_host2 : bytes  (* ParseFMPURI(String()) *)
 }.
 
+(* what the property asks of String(): it parses back to an equal value.  How it is spelled is not part of the property
+   (inside the modelled zone the glue still compares it with [uri_string]; outside it net/url escapes what it unescaped, e.g.
+   the zone of an IPv6 literal) *)
 Definition uri_pred (o : uri_obs) : bool :=
   if uo_ok o then
     scheme_ok (uo_scheme o)
     && Nat.leb 1 (count_colons (uo_hostport o))
     && nonempty (uo_host o)
     && Bool.eqb (uo_tls o) (use_tls (uo_scheme o))
-    && bytes_eqb (uo_str o) (uri_string (uo_scheme o) (uo_hostport o))
     && uo_ok2 o
     && bytes_eqb (uo_scheme2 o) (uo_scheme o)
     && bytes_eqb (uo_hostport2 o) (uo_hostport o)
